@@ -102,7 +102,7 @@ def session(item: Tuple[str, Any]) -> Dict[str, Any]:
     if HANGS.value >= HANG_LIMIT:
         return {"skipped": True, "lang": lang, "input": "", "events": []}
     if lang != "patch":
-        s = [{"EACUTE": "\u00e9", "SUPER2": "\u00b2", "HUGE": "9" * 4400, "LIMIT4300": "9" * 4300, "SQRUN": "'" + "\\" * 70, "DQRUN": '"' + "\\" * 70, "RERUN": "/" + "\\" * 70}.get(x, x) for x in s]
+        s = [{"EACUTE": "\u00e9", "SUPER2": "\u00b2", "ARDIGIT1": "\u0661", "HUGE": "9" * 4400, "LIMIT4300": "9" * 4300, "SQRUN": "'" + "\\" * 70, "DQRUN": '"' + "\\" * 70, "RERUN": "/" + "\\" * 70}.get(x, x) for x in s]
     ev: List[Dict[str, Any]] = []
 
     def log(name: str, fn: Any) -> Any:
